@@ -28,14 +28,28 @@ def run(patch):
             return dict(status="does not build", fired={}, rules={})
         fired, rules = {}, {}
         shutil.copy(os.path.join(VERIF, "KNOWN_FINDINGS.txt"), tmp)  # listed findings stay listed on the variants
-        for p in PROPS:
-            c = subprocess.run([os.path.join(VERIF, "bin", "wscheck"), "-repo", dst, "-verif", tmp, "-prop", p, "-evidence", os.path.join(tmp, p + ".json")],
-                               env=ENV, capture_output=True, text=True)
-            if c.returncode != 0:
-                rs = sorted(set(l.split("rule ")[1].split(" ")[0] for l in c.stdout.splitlines() if ": rule " in l))
-                und = "undecided" in c.stdout and not rs
-                fired[p] = True
-                rules[p] = rs if rs else (["undecided"] if und else ["?"])
+        # one process for all properties (WSCHECK_SHARE=1: the variant tree is loaded once); the output is the same as
+        # that of 20 single-property runs
+        env = dict(ENV, WSCHECK_SHARE="1")
+        os.makedirs(os.path.join(tmp, "evidence"), exist_ok=True)
+        c = subprocess.run([os.path.join(VERIF, "bin", "wscheck"), "-repo", dst, "-verif", tmp, "-prop", "all" if len(PROPS) > 1 else PROPS[0]],
+                           env=env, capture_output=True, text=True)
+        cur = None
+        und = {}
+        for l in c.stdout.splitlines():
+            if l.startswith("VIOLATION property="):
+                cur = l.split("property=")[1].split(" ")[0]
+                fired[cur] = True
+                rules.setdefault(cur, set())
+            elif ": rule " in l and cur:
+                rules[cur].add(l.split("rule ")[1].split(" ")[0])
+            elif "undecided" in l and cur:
+                und[cur] = True
+        for p in list(rules):
+            rs = sorted(rules[p])
+            rules[p] = rs if rs else (["undecided"] if und.get(p) else ["?"])
+        if c.returncode not in (0, 1):
+            return dict(status="checker failed rc=%d: %s" % (c.returncode, (c.stderr or c.stdout)[-300:]), fired=fired, rules=rules)
         return dict(status="ok", fired=fired, rules=rules)
     finally:
         shutil.rmtree(tmp, ignore_errors=True)
@@ -63,7 +77,7 @@ def main():
     for name, r in res.items():
         own = name.split("-")[0] if not name.startswith("regression") else ""
         if name.startswith("regression"):
-            own = {"F1": "C16", "F2": "C04", "F3": "C03", "F4": "C05", "F5": "C09", "F6": "C20", "F7": "C07", "F8": "C04", "F9": "C03", "F10": "C10", "F11": "C08", "F12": "C04", "F13": "C03", "F14": "C06", "F15": "C09", "F16": "C06", "F17": "C14", "F18": "C03", "F19": "C01"}.get(name.split("-")[1], "")
+            own = {"F1": "C16", "F2": "C04", "F3": "C03", "F4": "C05", "F5": "C09", "F6": "C20", "F7": "C07", "F8": "C04", "F9": "C03", "F10": "C10", "F11": "C08", "F12": "C04", "F13": "C03", "F14": "C06", "F15": "C09", "F16": "C06", "F17": "C14", "F18": "C03", "F19": "C01", "F20": "C18"}.get(name.split("-")[1], "")
         ownf = "yes" if r["fired"].get(own) else "NO"
         if ownf == "NO":
             miss.append(name)
